@@ -458,6 +458,26 @@ func generate(thorough bool, emit func(kase)) {
 			m = append(m, rrFixed(65, 1, len(rd))...)
 			emit(kase{Family: "scale:many-params", Desc: fmt.Sprint(n), Msg: append(m, rd...), N: n})
 		}
+		// round 14: ONE parameter of an HTTPS record holding many items - n/2 one-octet alpn ids, n/4 ipv4 hints, n/16 ipv6 hints (a
+		// list that is copied for every item it gains costs n^2 x the item size: 0.5 GB for 8000 ids)
+		for _, it := range []struct {
+			name string
+			key  byte
+			item []byte
+		}{{"alpn-ids", 1, []byte{1, 'x'}}, {"ipv4-hints", 4, []byte{10, 1, 2, 3}}, {"ipv6-hints", 6, []byte{0x20, 1, 0xd, 0xb8, 0, 0, 0, 0, 0, 0, 0, 0, 0, 0, 0, 1}}} {
+			m := append(hdr(1, 1, 0, 0), qA...)
+			m = append(m, 0xc0, 12)
+			var val []byte
+			for len(val)+len(it.item)+40 < n && len(val)+len(it.item) < 65000 {
+				val = append(val, it.item...)
+			}
+			if len(val) == 0 {
+				continue
+			}
+			rd := append([]byte{0, 1, 0, 0, it.key, byte(len(val) >> 8), byte(len(val))}, val...)
+			m = append(m, rrFixed(65, 1, len(rd))...)
+			emit(kase{Family: "scale:https-list-" + it.name, Desc: fmt.Sprint(n), Msg: append(m, rd...), N: n})
+		}
 	}
 }
 
